@@ -1220,7 +1220,11 @@ class ImplTranslator:
     or the end of the body ends it normally (TDone).  Imports and print calls are dropped.  Anything
     else fails (fail closed)."""
 
-    def __init__(self, source, name):
+    def __init__(self, source, name, assign_events=False):
+        # assign_events: `x = recv.m(args)` is also recorded as the event SMethod recv "m" args (the call
+        # is made on that path whether or not x is used later); off for the functions translated before
+        # this was added, whose assigned calls are all argument-free loaders used on every path
+        self.assign_events = assign_events
         self.tree = ast.parse(source)
         fds = [n for n in self.tree.body if isinstance(n, ast.FunctionDef) and n.name == name]
         if len(fds) != 1:
@@ -1307,6 +1311,11 @@ class ImplTranslator:
         if isinstance(s, ast.Assign) and len(s.targets) == 1 and isinstance(s.targets[0], ast.Name):
             env2 = dict(env)
             env2[s.targets[0].id] = self.sval(s.value, env)
+            if self.assign_events and isinstance(s.value, ast.Call) and isinstance(s.value.func, ast.Attribute):
+                c = s.value
+                pos = "; ".join(self.sval(a, env) for a in c.args)
+                kws = "; ".join(f"({self.lit(k.arg)}, {self.sval(k.value, env)})" for k in c.keywords)
+                calls = calls + [f"(SMethod {self.sval(c.func.value, env)} {self.lit(c.func.attr)} [{pos}] [{kws}])"]
             return self.run_block(rest, env2, calls)
         if isinstance(s, ast.If):
             t = s.test
@@ -1341,10 +1350,10 @@ Local Open Scope list_scope.
 """
 
 
-def translate_cli(repo, names):
+def translate_cli(repo, names, assign_events=False):
     import os
     src = open(os.path.join(str(repo), "toasty", "cli.py")).read()
-    return CLI_HEADER.format(names=", ".join(names)) + "\n".join(ImplTranslator(src, n).run() for n in names)
+    return CLI_HEADER.format(names=", ".join(names)) + "\n".join(ImplTranslator(src, n, assign_events).run() for n in names)
 
 
 def translate_cli_cascade(repo):
@@ -1367,10 +1376,21 @@ def translate_cli_multi_tan(repo):
     return translate_cli(repo, ["tile_multi_tan_impl", "view_locally"])
 
 
+def translate_cli_healpix(repo):
+    """Gallina text for cli.tile_healpix_impl (raises Unsupported)"""
+    return translate_cli(repo, ["tile_healpix_impl"], assign_events=True)
+
+
+def translate_cli_wwtl(repo):
+    """Gallina text for cli.tile_wwtl_impl (raises Unsupported)"""
+    return translate_cli(repo, ["tile_wwtl_impl"], assign_events=True)
+
+
 if __name__ == "__main__":
     import sys
     which = sys.argv[2] if len(sys.argv) > 2 else "pyramid"
     fn = {"pyramid": translate_pyramid, "study": translate_study, "paths": translate_paths, "script": translate_script,
           "cli_cascade": translate_cli_cascade, "cli_transform": translate_cli_transform,
-          "cli_allsky": translate_cli_allsky, "cli_multi_tan": translate_cli_multi_tan}[which]
+          "cli_allsky": translate_cli_allsky, "cli_multi_tan": translate_cli_multi_tan,
+          "cli_healpix": translate_cli_healpix, "cli_wwtl": translate_cli_wwtl}[which]
     sys.stdout.write(fn(sys.argv[1] if len(sys.argv) > 1 else "/repo"))
